@@ -263,8 +263,11 @@ func (f *Font) Widths() []float64 {
 		}
 		return widths
 	case *glyf.Outlines:
-		for i := range widths {
-			widths[i] = float64(outlines.Widths[i])
+		for i, w := range outlines.Widths {
+			if i >= len(widths) {
+				break
+			}
+			widths[i] = float64(w)
 		}
 		return widths
 	default:
